@@ -548,6 +548,57 @@ EXTRA_TEXT2 = {
            'way decides by id membership (ids are unique among siblings '
            'only).',
 }
+# clauses added from seed waves 8 and 9
+EXTRA_TEXT3 = {
+    'C02': 'No source on the namespace stack is skipped without being asked '
+           'for the name (the only way on is the KeyError / NameError of '
+           'the lookup); the instance wrapper resolves names from '
+           'attributes only.',
+    'C03': 'The fast-path characters are those whose presence alone decides '
+           'the predicate (three-valued evaluation); a non-text value is '
+           'converted and then quoted like text (scenario); ustr() returns '
+           'text untouched; the modifiers applied are the table functions '
+           'themselves.',
+    'C04': 'The modifiers a tag applies are the table functions themselves, '
+           'never callables wrapped around them.',
+    'C05': 'The type registered as an allowed container is that of the '
+           'DictInstance inside the 1-tuple a TemplateDict call returns.',
+    'C06': 'A tag name re-assigned from another tag occurrence no longer '
+           'pairs with an offset.',
+    'C07': 'No scanner pattern lists tag names.',
+    'C08': 'Recursion-level changes through helper methods of the namespace '
+           'are summarised (net change 0 at every exit).',
+    'C09': 'The if-cache receives no entry for an undefined name; namespace '
+           'layers signal missing / refused names only with exceptions the '
+           'lookup skips.',
+    'C10': 'The skip_unauthorized handler guards only the element fetch; '
+           'the prefix-aware mapping stores under both names on every path; '
+           'pair predicates (also in helpers) require a tuple.',
+    'C11': 'A sequence view that reads its base at an index computed by '
+           'subtraction refuses indexes beyond the length itself; the '
+           'default of int_param is taken only where the attribute is '
+           'missing; the parameters reach opt() in their positions.',
+    'C12': 'Only the constructor and the element reader touch the wrapped '
+           'iterator; no generator or loop hands its elements on.',
+    'C13': 'The case-insensitive comparison functions compare the folded '
+           'strings only (case-only differences are ties).',
+    'C14': 'The variable carrying the dtml-return value is not re-assigned '
+           'before the call returns it.',
+    'C15': 'An option value read inside a helper that is given the option '
+           'dictionary and a constant option name is not replaced by a '
+           'default when merely false.',
+    'C16': 'The item loop of the statistics is never left early; an integer '
+           'test that licenses floor division concerns the floored value.',
+    'C17': 'A numerically initialised accumulator is updated in place only '
+           'with engine-computed numbers; memoised functions return '
+           'immutable values; class-level mutables are not mutated through '
+           'self.',
+    'C19': 'A block tag keeps block lists, not section templates; the '
+           'encoding argument of decode-capable calls derives from the '
+           'template only; no combined decode of several pieces anywhere.',
+    'C20': 'Every id is read with the configured attribute, also when the '
+           'reader has a default.',
+}
 EXTRA_TECH = {
     'C01': 'prefix-knowledge abstract interpretation of the SGML scanner',
     'C12': 'zone (difference-bound) abstract interpretation of opt() with '
@@ -581,6 +632,11 @@ def main():
             i = t.find('Not decided')
             c['text'] = (t + ' ' + EXTRA_TEXT2[pid]) if i < 0 else (
                 t[:i] + EXTRA_TEXT2[pid] + ' ' + t[i:])
+        if pid in EXTRA_TEXT3:
+            t = c['text']
+            i = t.find('Not decided')
+            c['text'] = (t + ' ' + EXTRA_TEXT3[pid]) if i < 0 else (
+                t[:i] + EXTRA_TEXT3[pid] + ' ' + t[i:])
         if pid in EXTRA_TECH:
             c['technique'] += '; ' + EXTRA_TECH[pid]
         checks.append({
